@@ -50,21 +50,24 @@ type tvCase struct {
 	Loads []string `json:"loads"`
 	Err   bool     `json:"err"`
 	Out   []string `json:"out"`
+	Dags  []string `json:"dags"`  // roots of the (root, selector) pairs; two for the root module's multi-dag cases
+	Alias string   `json:"alias"` // "" or the name under which the last node's bytes are linked with another codec
 }
 
 type tvDag struct {
-	cids  map[string]cid.Cid
-	data  map[string][]byte // by cid key
-	names map[string]string // cid key -> node name
+	getRec *tvRecorder // when set, Get (the root module's loader) records its loads here
+	cids   map[string]cid.Cid
+	data   map[string][]byte // by cid key
+	names  map[string]string // cid key -> node name
 }
 
-func buildTvDag(kids map[string][]string, order []string) *tvDag {
+func buildTvDag(kids map[string][]string, order []string, alias string) *tvDag {
 	d := &tvDag{cids: map[string]cid.Cid{}, data: map[string][]byte{}, names: map[string]string{}}
 	for i := len(order) - 1; i >= 0; i-- {
 		n := order[i]
 		var b []byte
 		codec := uint64(cid.DagCBOR)
-		if len(kids[n]) == 0 && i%2 == 1 {
+		if len(kids[n]) == 0 && i%2 == 1 && !(alias != "" && i == len(order)-1) {
 			// raw leaves sized so that CID (36 bytes) + data sits on a varint boundary: 128 and 16384
 			size := 92
 			if i == 1 {
@@ -88,6 +91,13 @@ func buildTvDag(kids map[string][]string, order []string) *tvDag {
 		d.cids[n] = c
 		d.data[c.KeyString()] = b
 		d.names[c.KeyString()] = n
+		if alias != "" && i == len(order)-1 {
+			// the same bytes (a dag-cbor leaf) under the raw codec: another CID, the same multihash
+			ac := cid.NewCidV1(cid.Raw, h)
+			d.cids[alias] = ac
+			d.data[ac.KeyString()] = b
+			d.names[ac.KeyString()] = alias
+		}
 	}
 	return d
 }
@@ -118,6 +128,11 @@ func (d *tvDag) Get(_ context.Context, c cid.Cid) (blocks.Block, error) {
 	b, ok := d.data[c.KeyString()]
 	if !ok {
 		return nil, format.ErrNotFound{Cid: c}
+	}
+	if d.getRec != nil {
+		d.getRec.mu.Lock()
+		d.getRec.loads = append(d.getRec.loads, d.names[c.KeyString()])
+		d.getRec.mu.Unlock()
 	}
 	return blocks.NewBlockWithCid(b, c)
 }
@@ -151,13 +166,18 @@ func firstOcc(l []string) []string {
 }
 
 // sectionsNamed decodes a CARv1 payload into node names; returns also each section's offset and length.
-func (d *tvDag) sectionsNamed(payload []byte, root cid.Cid) ([]string, []int, []int, string) {
+func (d *tvDag) sectionsNamed(payload []byte, roots ...cid.Cid) ([]string, []int, []int, string) {
 	v1, err := refParseV1(payload, false)
 	if err != nil {
 		return nil, nil, nil, "payload undecodable: " + err.Error()
 	}
-	if len(v1.Roots) != 1 || !v1.Roots[0].Equals(root) {
-		return nil, nil, nil, "header roots are not the traversal root"
+	if len(v1.Roots) != len(roots) {
+		return nil, nil, nil, "header roots are not the traversal roots"
+	}
+	for i := range roots {
+		if !v1.Roots[i].Equals(roots[i]) {
+			return nil, nil, nil, "header roots are not the traversal roots"
+		}
 	}
 	var names []string
 	var offs, lens []int
@@ -177,9 +197,14 @@ type tvViol struct{ class, msg string }
 
 func runTraversalCase(c *tvCase, dir string, rep *Report) []tvViol {
 	var viols []tvViol
-	order := []string{"n1", "n2", "n3", "n4"}[:len(c.Kids)]
-	d := buildTvDag(c.Kids, order)
+	nn := len(c.Kids)
+	if c.Alias != "" {
+		nn--
+	}
+	order := []string{"n1", "n2", "n3", "n4"}[:nn]
+	d := buildTvDag(c.Kids, order, c.Alias)
 	root := d.cids["n1"]
+	multi := len(c.Dags) > 1
 	sel := tvSelector(c.Opt.Sel.Kind, c.Opt.Sel.D, c.Opt.Sel.P)
 	h := fnv.New32a()
 	h.Write([]byte(canon(c.Kids) + canon(c.Opt)))
@@ -246,7 +271,7 @@ func runTraversalCase(c *tvCase, dir string, rep *Report) []tvViol {
 		}
 	}
 	// ---- v2 NewSelectiveWriter (two passes)
-	{
+	if !multi {
 		rec := &tvRecorder{}
 		ls := d.linkSystem(rec)
 		w, err := carv2.NewSelectiveWriter(bg, &ls, root, sel, v2opts...)
@@ -275,7 +300,7 @@ func runTraversalCase(c *tvCase, dir string, rep *Report) []tvViol {
 		}
 	}
 	// ---- v2 TraverseV1
-	{
+	if !multi {
 		rec := &tvRecorder{}
 		ls := d.linkSystem(rec)
 		var buf bytes.Buffer
@@ -293,7 +318,7 @@ func runTraversalCase(c *tvCase, dir string, rep *Report) []tvViol {
 		}
 	}
 	// ---- v2 TraverseToFile
-	{
+	if !multi {
 		rec := &tvRecorder{}
 		ls := d.linkSystem(rec)
 		p := filepath.Join(dir, "tv.car")
@@ -313,15 +338,38 @@ func runTraversalCase(c *tvCase, dir string, rep *Report) []tvViol {
 		if c.Opt.Budget >= 0 {
 			ropts = append(ropts, carv1root.MaxTraversalLinks(uint64(c.Opt.Budget)))
 		}
-		sc := carv1root.NewSelectiveCar(bg, d, []carv1root.Dag{{Root: root, Selector: sel}}, ropts...)
+		dags := []carv1root.Dag{{Root: root, Selector: sel}}
+		rootCids := []cid.Cid{root}
+		if multi {
+			dags, rootCids = nil, nil
+			for _, r := range c.Dags {
+				dags = append(dags, carv1root.Dag{Root: d.cids[r], Selector: sel})
+				rootCids = append(rootCids, d.cids[r])
+			}
+		}
+		sc := carv1root.NewSelectiveCar(bg, d, dags, ropts...)
 		var wbuf bytes.Buffer
 		var cbs []carv1root.Block
+		d.getRec = &tvRecorder{}
 		werr := sc.Write(&wbuf, func(b carv1root.Block) error { cbs = append(cbs, b); return nil })
+		wloads := d.getRec.loads
+		d.getRec = nil
+		if werr != nil && !c.Err {
+			rep.drift(fmt.Sprintf("kids %v opt %s: root SelectiveCar.Write failed (%v), model says no error", c.Kids, canon(c.Opt), werr))
+		}
 		if werr == nil {
-			names, offs, lens, m := d.sectionsNamed(wbuf.Bytes(), root)
+			names, offs, lens, m := d.sectionsNamed(wbuf.Bytes(), rootCids...)
 			if m != "" {
 				add("root.SelectiveCar.Write/payload", m)
 			} else {
+				// exactly the blocks the traversal loaded, once, in first-visit order (observed loads are the oracle;
+				// the model's loads are compared as an I-layer check)
+				if want := firstOcc(wloads); fmt.Sprint(names) != fmt.Sprint(want) {
+					add("root.SelectiveCar.Write/blocks", fmt.Sprintf("archive holds %v, the traversal loaded %v (first visits %v)", names, wloads, want))
+				}
+				if !c.Err && fmt.Sprint(wloads) != fmt.Sprint(c.Loads) {
+					rep.drift(fmt.Sprintf("kids %v opt %s: model loads %v, root module loaded %v", c.Kids, canon(c.Opt), c.Loads, wloads))
+				}
 				for i := range names {
 					for j := 0; j < i; j++ {
 						if names[i] == names[j] {
